@@ -1,6 +1,17 @@
 /-
   Lemmas/FloatErrCvt.lean — the rounding-error layer (Lemmas/FloatErr*.lean) connected to the **conversions**
   `f32 → f64` (`Cvt.up`, `upBits`) and `f64 → f32` (`Cvt.down`, `downBits`) of Model/FloatBits.lean / FloatInst.lean.
+  These are bit-level definitions over the codec's `roundRat`, outside `Float.Model`; they are tied here to the exact
+  values `toRat` / `toRat32` (= `uval ∘ unpack`).
+
+  * `uval_unpackNat` (`uval_unpackNat64/32`, `toRat_bits`, `toRat32_bits'`): the value of a finite pattern is
+    `± m · 2^e`, `(m, e) = decompose f (pattern mod sign bit)` — the bridge between Lean's `unpack` and the codec;
+  * `LeS_q`, `GeS_q`, `InIv_q`: the cross-multiplied comparisons of the codec laws, over ℚ;
+  * **`roundRat_rnd`**: `roundRat` (correct rounding, `FCL.roundRat_spec`) satisfies `Rnd` — half an ulp on a grid on
+    which the exact value has a full mantissa (the value just below a power of two is the delicate case: grid `e − 1`);
+  * `upBits_val`, **`toRat_up`**, `up_finite`: `f64::from(x)` is exact and finite for finite `x`;
+  * `downBits_val`, `down_repr`, **`down_rnd`**: `y as f32` is ONE correct rounding (`Rnd32`: relative `2⁻²⁴` for
+    `|y| ≥ 2⁻¹²⁶`, absolute `2⁻¹⁵⁰` below); `down_nonneg_val`, `down_nonpos_val`: the sign is kept.
 -/
 import RosuModel.Lemmas.FloatErr32
 import RosuModel.Lemmas.FloatBitsLaws
@@ -500,5 +511,72 @@ theorem down_nonpos_val (y : Float) (hy : y.isFinite = true) (h : (Cvt.down y : 
     have : V = 0 := by rw [h1] at h0; linarith
     rw [hz this]
   | negative => simp only [sgnQ]; linarith
+
+/-! ### non-vacuity / sharpness (closed values, evaluated by the kernel) -/
+
+section Examples
+
+/-- `toRat_up` on the smallest positive `f32` (a subnormal, renormalised by `upBits`), on `f32::MAX` and on `−0`:
+the hypothesis holds, and the instance. -/
+example : (Float32.ofBits 1).isFinite = true ∧ (Float32.ofBits 0x7F7FFFFF).isFinite = true ∧
+    toRat (Cvt.up (Float32.ofBits 1) : Float) = toRat32 (Float32.ofBits 1) ∧
+    toRat (Cvt.up (Float32.ofBits 0x7F7FFFFF) : Float) = toRat32 (Float32.ofBits 0x7F7FFFFF) ∧
+    toRat (Cvt.up (Float32.ofBits 0x80000000) : Float) = toRat32 (Float32.ofBits 0x80000000) :=
+  ⟨by decide +kernel, by decide +kernel, toRat_up _ (by decide +kernel), toRat_up _ (by decide +kernel),
+    toRat_up _ (by decide +kernel)⟩
+
+/-- … with the value computed: the smallest `f32` subnormal is `2⁻¹⁴⁹`, and so is its image (`0x36A0000000000000`). -/
+example : toRat32 (Float32.ofBits 1) = (2 : ℚ) ^ (-149 : Int) ∧
+    (Cvt.up (Float32.ofBits 1) : Float) = Float.ofBits 0x36A0000000000000 ∧
+    toRat (Float.ofBits 0x36A0000000000000) = (2 : ℚ) ^ (-149 : Int) := by
+  have h32 : (Float32.ofBits 1).toModel.unpack = .finite .positive 1 (-149) (by decide) := by
+    rw [FM.float32_unpack_ofBits _ (by decide)]; rfl
+  have h64 : (Float.ofBits 0x36A0000000000000).toModel.unpack = .finite .positive 4503599627370496 (-201) (by decide) := by
+    rw [FM.float_unpack_ofBits _ (by decide)]; rfl
+  refine ⟨by rw [toRat32_of_unpack h32]; norm_num [sgnQ], by decide +kernel, ?_⟩
+  rw [toRat_of_unpack h64]
+  rw [show (-149 : Int) = 52 + (-201) by norm_num, zpow_add₀ (two_ne_zero)]
+  norm_num [sgnQ]
+
+/-- the finiteness hypothesis of `toRat_up` is needed for the *statement to be meaningful* only (`toRat ∞ = 0` by
+convention); `+∞ ↦ +∞`, NaN ↦ NaN. -/
+example : (Cvt.up (Float32.ofBits 0x7F800000) : Float).toBits = 0x7FF0000000000000 ∧
+    (Cvt.up (Float32.ofBits 0x7FC00000) : Float).isNaN = true := by decide +kernel
+
+/-- the hypotheses of `down_rnd` hold on `0.1`, `0.1 as f32 = 0x3DCCCCCD`; the instance of the relative form. -/
+example : ∃ δ : ℚ, |δ| ≤ (2 : ℚ) ^ (-24 : Int) ∧
+    toRat32 (Cvt.down (0.1 : Float) : Float32) = toRat (0.1 : Float) * (1 + δ) := by
+  refine (down_rnd (0.1 : Float) (by decide +kernel) (by decide +kernel)).rel ?_
+  rw [toRat_of_unpack unpack_0_1]
+  refine le_trans (zpow_le_zpow_right₀ (by norm_num) (by norm_num) : (2 : ℚ) ^ (-126 : Int) ≤ (2 : ℚ) ^ (-10 : Int)) ?_
+  norm_num [sgnQ]
+
+/-- … with the `δ` computed: `0.1 as f32 = 0.1 · (1 + 53687091/3602879701896397)`, `δ ≈ 0.25 · 2⁻²⁴ ≠ 0`: the
+conversion is not exact. -/
+example : (Cvt.down (0.1 : Float) : Float32) = Float32.ofBits 0x3DCCCCCD ∧
+    toRat32 (Float32.ofBits 0x3DCCCCCD) = toRat (0.1 : Float) * (1 + 53687091 / 3602879701896397) := by
+  have h32 : (Float32.ofBits 0x3DCCCCCD).toModel.unpack = .finite .positive 13421773 (-27) (by decide) := by
+    rw [FM.float32_unpack_ofBits _ (by decide)]; rfl
+  refine ⟨by decide +kernel, ?_⟩
+  rw [toRat32_of_unpack h32, toRat_of_unpack unpack_0_1]
+  norm_num [sgnQ]
+
+/-- the no-overflow hypothesis of `down_rnd` is needed: a double just above `f32::MAX + ulp/2` becomes `+∞`;
+gradual underflow is covered (absolute error `≤ 2⁻¹⁵⁰`): `2⁻¹⁵⁰` (a tie) rounds to `+0`, `1.5 · 2⁻¹⁵⁰` to `2⁻¹⁴⁹`. -/
+example : (Cvt.down (Float.ofBits 0x47F0000000000000) : Float32).isFinite = false ∧
+    (Cvt.down (Float.ofBits 0x3690000000000000) : Float32).toBits = 0 ∧
+    (Cvt.down (Float.ofBits 0x3698000000000000) : Float32).toBits = 1 := by decide +kernel
+
+/-- sign: `down_nonneg_val` / `down_nonpos_val` on `±0.1`. -/
+example : 0 ≤ toRat32 (Cvt.down (0.1 : Float) : Float32) ∧ toRat32 (Cvt.down (-0.1 : Float) : Float32) ≤ 0 := by
+  refine ⟨down_nonneg_val _ (by decide +kernel) (by decide +kernel) ?_,
+    down_nonpos_val _ (by decide +kernel) (by decide +kernel) ?_⟩
+  · rw [toRat_of_unpack unpack_0_1]; norm_num [sgnQ]
+  · have h : (-0.1 : Float).toModel.unpack = .finite .negative 7205759403792794 (-56) (by decide) := by
+      have : (-0.1 : Float) = Float.ofBits 0xBFB999999999999A := by decide +kernel
+      rw [this, FM.float_unpack_ofBits _ (by decide)]; rfl
+    rw [toRat_of_unpack h]; norm_num [sgnQ]
+
+end Examples
 
 end Rosu.FErr
